@@ -16,6 +16,9 @@ CONSTANTS
   Cancels = {"s1","s2"}
   LegacyHoldLocks = FALSE
   LegacyNilLog = FALSE
+  PubRest <- NoRest
+  MutBatchPersistFirst = FALSE
+  MutBatchNoWait = FALSE
   MutPersistOutsideLock = FALSE
 CONSTRAINT HighWater
 POSTCONDITION Accepted
